@@ -275,13 +275,12 @@ def generate(rng, tier, run):
             ops.append(['parse', ci, d, tolerant, ['stdarg', spec, kw, pos]])
         elif x < 0.34:
             pos = rng.randrange(len(doc) + 1) if doc else 0
-            ops.append(['parse', ci, doc, tolerant, ['legacy', pos]])
+            ops.append(['parse', ci, doc, tolerant, ['legacy', pos, gen_legacy_kw(rng)]])
         elif x < 0.37:
             pos = rng.randrange(len(doc) + 1) if doc else 0
             if rng.random() < 0.5:
-                ops.append(['parse', ci, doc, tolerant,
-                            ['legacy2', rng.choice(['expression', 'braced_group', 'environment',
-                                                    'maybe_optional_arg', 'token']), pos]])
+                wh = rng.choice(['expression', 'braced_group', 'environment', 'maybe_optional_arg', 'token'])
+                ops.append(['parse', ci, doc, tolerant, ['legacy2', wh, pos, gen_legacy_kw(rng, wh)]])
             else:
                 ops.append(['parse', ci, doc, tolerant,
                             ['parser', rng.choice(['expression', 'group', 'anygroup', 'math', 'optsq', 'single']),
@@ -310,15 +309,40 @@ def generate(rng, tier, run):
                 if y < 0.3:
                     steps.append(['general'])
                 elif y < 0.45:
-                    steps.append(['legacy', pos])
+                    steps.append(['legacy', pos, gen_legacy_kw(rng)])
                 elif y < 0.6:
-                    steps.append(['legacy2', rng.choice(['expression', 'braced_group', 'environment',
-                                                         'maybe_optional_arg', 'token']), pos])
+                    wh = rng.choice(['expression', 'braced_group', 'environment', 'maybe_optional_arg', 'token'])
+                    steps.append(['legacy2', wh, pos, gen_legacy_kw(rng, wh)])
                 elif y < 0.9:
                     steps.append(['parser', rng.choice(PARSER_NAMES), pos, rng.random() < 0.3, rng.random() < 0.5])
                 else:
                     steps.append(['stdarg', rng.choice(docgen.STD_ARG_TYPES), {}, pos])
             if rng.random() < 0.35:
+                # the pylatexenc-2 way of writing an argument parser: the same call twice on one walker,
+                # first with the default parsing state, then with the caller's own (or the other way round)
+                fam = rng.random()
+                if fam < 0.6:
+                    o, c = rng.choice([('[', ']'), ('(', ')'), ('<', '>'), ('{', '}')])
+                    d = '%sfirst%s %sa%%b%s c %s d' % (o, c, o, c, c) if rng.random() < 0.6 else \
+                        '%sx%s %sy $z$ \\mb{w}%s t%s' % (o, c, o, c, c)
+                    kw1 = {'stop_upon_closing_brace': c}
+                    p1, p2 = 1, d.index(' ') + 2
+                elif fam < 0.8:
+                    d = 'a %c\n\\end{en} b %d\n\\end{en}'
+                    kw1 = {'stop_upon_end_environment': 'en'}
+                    p1, p2 = 0, d.index('b')
+                else:
+                    d = 'x %c\n$ y %d\n$ z'
+                    kw1 = {'stop_upon_closing_mathmode': '$'}
+                    p1, p2 = 0, d.index('y')
+                if rng.random() < 0.3:
+                    kw1['read_max_nodes'] = rng.randint(1, 3)
+                kw2 = dict(kw1, ps=rng.choice(LEGACY_PS[1:]))
+                pair = [['legacy', p1, kw1], ['legacy', rng.choice([p1, p2]), kw2]]
+                if rng.random() < 0.4:
+                    pair.reverse()
+                ops.append(['reuse', ci, d, tolerant, pair + steps[:1], False, False])
+            elif rng.random() < 0.35:
                 # the way a hand-written parser works: look at one place with one parser, go back, read
                 # it with another (same reader, same parsing-state object)
                 p0 = rng.choice([0, 0, rng.randrange(len(d) + 1)])
@@ -569,6 +593,52 @@ def _get_parser(name, shared):
     return POOL[name]
 
 
+def _legacy_kw(w, kw, pss):
+    """Keyword arguments of a legacy call; 'ps' stands for a parsing state made by the walker with
+    those fields (or, with shared state objects, the shared one when no fields are asked for)."""
+    kw = dict(kw or {})
+    ps = kw.pop('ps', None)
+    if ps is not None:
+        kw['parsing_state'] = w.make_parsing_state(**ps) if ps or not pss else pss[False]
+    return kw
+
+
+LEGACY_PS = [{}, {'enable_comments': False}, {'in_math_mode': True}, {'enable_environments': False},
+             {'enable_groups': True, 'latex_group_delimiters': [['{', '}'], ['[', ']']]}]
+
+
+def gen_legacy_kw(rng, which=None):
+    """Flag combinations of the pylatexenc-2 entry points."""
+    kw = {}
+    if which is None:
+        x = rng.random()
+        if x < 0.3:
+            kw['stop_upon_closing_brace'] = rng.choice(['}', ']', ')', '>'])
+        elif x < 0.4:
+            kw['stop_upon_end_environment'] = rng.choice(['en', 'itemize', 'equation', 'em'])
+        elif x < 0.5:
+            kw['stop_upon_closing_mathmode'] = rng.choice(['$', '$$', '\\)', '\\]'])
+        if rng.random() < 0.3:
+            kw['read_max_nodes'] = rng.randint(1, 3)
+    elif which == 'expression':
+        if rng.random() < 0.4:
+            kw['strict_braces'] = rng.random() < 0.5
+    elif which == 'braced_group':
+        if rng.random() < 0.5:
+            kw['brace_type'] = rng.choice(['{', '[', '(', '<'])
+    elif which == 'environment':
+        if rng.random() < 0.4:
+            kw['environmentname'] = rng.choice(['en', 'itemize', 'equation', 'em', 'nosuch'])
+    elif which == 'token':
+        if rng.random() < 0.5:
+            kw['include_brace_chars'] = rng.choice([[['[', ']']], [['<', '>'], ['(', ')']]])
+        if rng.random() < 0.3:
+            kw['environments'] = False
+    if rng.random() < 0.4:
+        kw['ps'] = rng.choice(LEGACY_PS)
+    return kw
+
+
 def _entry_fn(w, entry, tr=None, pss=None):
     """A closure that makes one parse call on walker w (token reader tr when given, else a new one;
     parsing-state objects pss = {math?: state} when given, else made by the walker per call)."""
@@ -584,18 +654,20 @@ def _entry_fn(w, entry, tr=None, pss=None):
             return D.Dumper().result(nodes, delta)
     elif entry[0] == 'legacy':
         def go():
-            r = w.get_latex_nodes(pos=entry[1])
+            kw = _legacy_kw(w, entry[2] if len(entry) > 2 else None, pss)
+            r = w.get_latex_nodes(pos=entry[1], **kw)
             nodes, p, ln = r
             return {'legacy': D.Dumper().result(nodes), 'pos': p, 'len': ln}
     elif entry[0] == 'legacy2':
         def go():
             which, pos = entry[1], entry[2]
+            kw = _legacy_kw(w, entry[3] if len(entry) > 3 else None, pss)
             if which == 'token':
-                return {'token': D.dump_token(w.get_token(pos))}
+                return {'token': D.dump_token(w.get_token(pos, **kw))}
             fn = {'expression': w.get_latex_expression, 'braced_group': w.get_latex_braced_group,
                   'environment': w.get_latex_environment,
                   'maybe_optional_arg': w.get_latex_maybe_optional_arg}[which]
-            r = fn(pos)
+            r = fn(pos, **kw)
             if r is None:
                 return {'legacy2': None}
             nodes, p, ln = r
@@ -1266,7 +1338,10 @@ TIERS = {
     'thorough': {'runs': 90000, 'wall_cap': 3600},
 }
 EXPECTED_PROBES = ['second-use-of-stateful-shared-parser', 'RecursionError-raised',
-                   'interrupt-armed-but-parse-ended-first', 'reentrant-inner-parse-compared', 'tolerant-parse']
+                   'interrupt-armed-but-parse-ended-first', 'reentrant-inner-parse-compared', 'tolerant-parse',
+                   'reused-walker-call-compared', 'pooled-parser-object-used', 'token-reader-reused',
+                   'parsing-state-object-reused', 'temporary-context-parse-compared', 'collector-schedule-off',
+                   'collector-schedule-eager']
 
 STATES_MEASURE = ('distinct shared-state signatures observed between operations: sorted keys of the process-wide standard-argument parser cache plus the scalar attributes of every cached inner parser (coverage only, never an oracle)')
 
